@@ -218,6 +218,8 @@ def run(ctx: Context) -> None:
     clause_b(ctx)
     clause_c(ctx)
     clause_d(ctx)
+    clause_e(ctx)
+    clause_f(ctx)
 
 
 # ---------------------------------------------------------------------------------------------------------------
@@ -824,3 +826,92 @@ def clause_d(ctx: Context) -> None:
                                       f"labels (combined with the post-selected modes): after an earlier measurement or post-selection the wrong modes "
                                       f"are addressed, or a valid program is refused", ast.unparse(c)[:140])
     ctx.require_floor("C05d calls from simulation steps into state methods with a typed mode argument", n_calls, 3)
+
+
+# ---------------------------------------------------------------------------------------------------------------
+# clause (e): carried cursors; clause (f): who may write the effective interferometer
+# ---------------------------------------------------------------------------------------------------------------
+def clause_e(ctx: Context) -> None:
+    """A loop that walks consecutive blocks with a cursor (`stop = start + n; ...; start = stop`) must advance the cursor on every
+    path through its body: a `continue` before the advance makes every later block start at a stale offset."""
+    ctx.rule("C05e", "a cursor carried from one loop iteration to the next (read before it is re-assigned in the body) is advanced on every "
+                     "path through the body: no `continue` precedes its assignment")
+    idx = get_index(ctx.repo)
+    n = 0
+    for mname, m in sorted(idx.modules.items()):
+        if not (mname.startswith(PACKAGE) or mname.startswith("piquasso._math")):
+            continue
+        for fn in list(m.functions.values()) + [f for c in m.classes.values() for f in c.methods.values()]:
+            for loop in ast.walk(fn.node):
+                if not isinstance(loop, (ast.For, ast.While)):
+                    continue
+                body = loop.body
+                # cursors: names assigned at the top level of the body from another local, and read earlier in the same body
+                for i, st in enumerate(body):
+                    if not (isinstance(st, ast.Assign) and len(st.targets) == 1 and isinstance(st.targets[0], ast.Name)):
+                        if isinstance(st, ast.AugAssign) and isinstance(st.target, ast.Name):
+                            cur, val = st.target.id, st.value
+                        else:
+                            continue
+                    else:
+                        cur, val = st.targets[0].id, st.value
+                    loop_targets = {x.id for x in ast.walk(loop.target) if isinstance(x, ast.Name)} if isinstance(loop, ast.For) else set()
+                    if cur in loop_targets:
+                        continue
+                    read_before = any(isinstance(x, ast.Name) and x.id == cur and isinstance(x.ctx, ast.Load)
+                                      for s_ in body[:i] for x in ast.walk(s_))
+                    assigned_before = any(isinstance(x, ast.Name) and x.id == cur and isinstance(x.ctx, ast.Store)
+                                          for s_ in body[:i] for x in ast.walk(s_))
+                    # the value advances the cursor by something computed in this iteration (`start = stop`, `cur += n`)
+                    advances = isinstance(st, ast.AugAssign) or (isinstance(val, ast.Name) and any(
+                        isinstance(a, ast.Assign) and len(a.targets) == 1 and isinstance(a.targets[0], ast.Name) and a.targets[0].id == val.id
+                        and any(isinstance(x, ast.Name) and x.id == cur for x in ast.walk(a.value)) for a in body[:i]))
+                    if not (read_before and not assigned_before and advances):
+                        continue
+                    # is the cursor also used as a slice bound / index in the body (a position, not a plain accumulator)?
+                    positional = any(isinstance(x, ast.Slice) and any(isinstance(y, ast.Name) and y.id == cur for y in ast.walk(x))
+                                     for s_ in body for x in ast.walk(s_))
+                    if not positional:
+                        continue
+                    n += 1
+                    skips = [c for s_ in body[:i] for c in ast.walk(s_) if isinstance(c, ast.Continue)
+                             and not any(isinstance(p_, (ast.For, ast.While)) and any(c is y for y in ast.walk(p_)) for p_ in ast.walk(s_) if p_ is not loop)]
+                    key = f"{fn.qualname}|cursor {cur}"
+                    ctx.obligation("C05e", key, not skips, f"{ctx.relpath(fn.file)}:{st.lineno}")
+                    if skips:
+                        ctx.violation("C05e", key, fn.file, skips[0].lineno,
+                                      f"the cursor `{cur}` marks the start of the next block (`{ast.unparse(st)}` at the end of the loop body), but a `continue` "
+                                      f"before it skips the advance: every block after a skipped element is read from a stale offset",
+                                      ast.unparse(skips[0]))
+    ctx.require_floor("C05e loops with a carried positional cursor", n, 1)
+
+
+def clause_f(ctx: Context) -> None:
+    """The effective interferometer is indexed by original mode labels, while a simulation step receives positions among the active
+    modes.  `_apply_matrix_on_modes` is the one place that converts; a step that writes `state.interferometer` itself (for
+    instance a shortcut for "all modes") acts on the rows of already post-selected modes too."""
+    ctx.rule("C05f", "only the state's own initialiser and `_apply_matrix_on_modes` assign `interferometer`; simulation steps go through the latter")
+    idx = get_index(ctx.repo)
+    allowed = {"_reset_state", "__init__", "_apply_matrix_on_modes"}
+    n = 0
+    for mname, m in sorted(idx.modules.items()):
+        if not mname.startswith(PACKAGE):
+            continue
+        for fn in list(m.functions.values()) + [f for c in m.classes.values() for f in c.methods.values()]:
+            for a in ast.walk(fn.node):
+                tgts = a.targets if isinstance(a, ast.Assign) else ([a.target] if isinstance(a, (ast.AugAssign, ast.AnnAssign)) else [])
+                for t in tgts:
+                    base = t
+                    while isinstance(base, ast.Subscript):
+                        base = base.value
+                    if isinstance(base, ast.Attribute) and base.attr == CORE_FIELD:
+                        n += 1
+                        ok = fn.name in allowed
+                        key = f"{fn.qualname}|writes {CORE_FIELD}"
+                        ctx.obligation("C05f", key, ok, f"{ctx.relpath(fn.file)}:{a.lineno}")
+                        if not ok:
+                            ctx.violation("C05f", key, fn.file, a.lineno,
+                                          f"{fn.name} assigns `{ast.unparse(t)}` itself instead of going through _apply_matrix_on_modes, which maps the "
+                                          f"positions among the active modes to original mode labels: with post-selected modes present the rows of "
+                                          f"those modes are transformed too", ast.unparse(a)[:120])
+    ctx.require_floor("C05f assignments of the effective interferometer", n, 2)
